@@ -26,6 +26,9 @@ type c09Extra struct {
 	Note   string        `json:"note,omitempty"`
 	Depth  int           `json:"depth"`         // 0: executed by the top frame, 1: through a CALL, 2: DELEGATECALL
 	Str    hexutil.Bytes `json:"str,omitempty"` // informational (the oracle decodes the pre-state)
+	// further rounds (valid cases only): the slot is overwritten with the word and
+	// the same journal instruction runs again, in the same frame
+	Rounds []common.Hash `json:"rounds,omitempty"`
 }
 
 const c09Marker = 0x99
@@ -105,6 +108,30 @@ func checkC09(sc *Scenario, st *Stats) *Violation {
 	} else {
 		want, valid = refDecodeString(storage, ex.Slot)
 	}
+	// further rounds: what the LAST journal instruction saw
+	var seq [][]byte
+	if valid && len(ex.Rounds) > 0 {
+		seq = append(seq, want)
+		cur := map[common.Hash]common.Hash{}
+		for k, v := range storage {
+			cur[k] = v
+		}
+		for _, w := range ex.Rounds {
+			cur[ex.Slot] = w
+			var b []byte
+			var ok bool
+			if ex.Kind == "value" {
+				b, ok = refDecodeField(w, bigOf(ex.Offset), bigOf(ex.Width))
+			} else {
+				b, ok = refDecodeString(cur, ex.Slot)
+			}
+			if !ok {
+				return violf("harness/rounds", "round word %x does not decode", w)
+			}
+			seq = append(seq, b)
+		}
+		want = seq[len(seq)-1]
+	}
 	// did the frame that executed the journal instruction continue?
 	continued := art.Obs[0].Accts[target].Storage[common.BigToHash(big.NewInt(c09Marker))] == common.BigToHash(big.NewInt(1))
 	// which call index? the innermost CALL frame executing the instruction
@@ -141,7 +168,23 @@ func checkC09(sc *Scenario, st *Stats) *Violation {
 			return violf(ex.Kind+"/not-recorded", "%s: nothing recorded (by slot: %v, by name: %v)", desc, okS, okN)
 		}
 		if !bytes.Equal(gotS, want) || !bytes.Equal(gotN, want) {
+			if len(seq) > 0 {
+				return violf(ex.Kind+"/stale-after-rounds", "%s: after %d journal steps over contents %x the last recorded value is %x (by name %x), the storage content at the last step decodes to %x", desc, len(seq), seq, gotS, gotN, want)
+			}
 			return violf(ex.Kind+"/wrong-bytes", "%s: recorded %x (by name %x), the storage content decodes to %x", desc, gotS, gotN, want)
+		}
+		if len(seq) > 0 {
+			// the whole list of this call: the contents in order, immediate repeats once
+			var exp [][]byte
+			for _, b := range seq {
+				if len(exp) == 0 || !bytes.Equal(exp[len(exp)-1], b) {
+					exp = append(exp, b)
+				}
+			}
+			got := bySlot.Changes()[idx]
+			if fmt.Sprintf("%x", got) != fmt.Sprintf("%x", exp) {
+				return violf(ex.Kind+"/sequence", "%s: recorded list %x, the instruction saw %x in this order", desc, got, exp)
+			}
 		}
 	} else {
 		if continued {
@@ -185,6 +228,9 @@ func checkC09(sc *Scenario, st *Stats) *Violation {
 		}
 	}
 	labels = append(labels, "note:"+ex.Note)
+	if len(seq) > 0 {
+		labels = append(labels, fmt.Sprintf("rounds:%d", len(ex.Rounds)))
+	}
 	st.Case(sc.JSON(), nontrivial, sc, labels...)
 	return nil
 }
@@ -335,6 +381,32 @@ func genC09(t *rapid.T) *Scenario {
 		writeName(a, ex.Name)
 		a.Push(ex.TypeID).Push(slotU).Push(0x380).Op(RSVJNAL)
 		a.Push(ex.TypeID).Push(slotU).Op(VRJNAL)
+	}
+	if ex.Note == "valid" && chance(t, 35, "rounds") {
+		// alternating contents: A, B, A ... (the journal keeps one list per call)
+		w0 := storage[ex.Slot]
+		var alt common.Hash
+		if ex.Kind == "value" {
+			copy(alt[:], rapid.SliceOfN(rapid.Byte(), 32, 32).Draw(t, "altword"))
+		} else {
+			c := rapid.SliceOfN(rapid.Byte(), 0, 31).Draw(t, "altstr")
+			copy(alt[:], c)
+			alt[31] = byte(2 * len(c))
+		}
+		pat := [][]int{{1, 0}, {1, 0, 1}, {0}, {1}, {1, 1, 0}, {0, 1, 0}}[uniform(t, 0, 5, "roundpat")]
+		for _, p := range pat {
+			w := w0
+			if p == 1 {
+				w = alt
+			}
+			ex.Rounds = append(ex.Rounds, w)
+			a.PushBytes(w[:]).Push(slotU).Op(SSTORE)
+			if ex.Kind == "value" {
+				a.Push(ex.TypeID).Push(bigOf(ex.Width)).Push(bigOf(ex.Offset)).Push(slotU).Op(VVJNAL)
+			} else {
+				a.Push(ex.TypeID).Push(slotU).Op(VRJNAL)
+			}
+		}
 	}
 	a.Push(1).Push(c09Marker).Op(SSTORE).Op(STOP)
 	sc := &Scenario{Fork: ForkNames[uniform(t, 0, 12, "fork")]}
